@@ -10,6 +10,7 @@ A term is one of
   {"sum":[T..]}  {"mul":[T..]}          finite sums / products
   {"div":[T,T]}                         quotient
   {"pow":k,"x":T}                       T**k (k integer)
+  {"min":[T..]}  {"max":[T..]}          smallest / largest of finitely many terms
   {"encl":[Tlo,Thi]}                    rigorous enclosure -> (lo, hi)
   {"vec":[T..]} / nested lists          elementwise
 Rationals stay exact (fractions.Fraction).  pi and square roots are carried as 50-digit rational
@@ -95,6 +96,9 @@ def ev(t, env=None):
         if "div" in t:
             a, b = ev(t["div"][0], env), ev(t["div"][1], env)
             return float(a) / float(b) if isinstance(a, float) or isinstance(b, float) else a / b
+        if "min" in t or "max" in t:
+            vs = [ev(x, env) for x in (t.get("min") or t.get("max"))]
+            return (min if "min" in t else max)(vs, key=float)
         if "pow" in t:
             v = ev(t["x"], env)
             return v ** t["pow"]
